@@ -273,7 +273,7 @@ type authnSpec struct {
 	fallback bool   // effective allow_fallback_on_error (catalogue value unless overridden in the rule)
 	party    string
 	subject  string
-	override int // rule-level allow_fallback_on_error: 0 not given, 1 true, 2 false
+	override int // rule-level allow_fallback_on_error: 0 not given, 1 true, 2 false, 3 a rule-level config not naming it
 }
 
 var authnPool = []authnSpec{
@@ -342,8 +342,16 @@ func (p pipeline) yamlGuarded(id, path string, proxy bool, guard int) string {
 	b.WriteString("  execute:\n")
 	for _, a := range p.authn {
 		fmt.Fprintf(&b, "    - authenticator: %s\n", a.id)
-		if a.override != 0 {
+		switch a.override {
+		case 1, 2:
 			fmt.Fprintf(&b, "      config:\n        allow_fallback_on_error: %v\n", a.override == 1)
+		case 3:
+			// a rule-level config which leaves the fallback setting alone: the catalogue's stays in force
+			if a.kind == "basic" {
+				b.WriteString("      config:\n        user_id: bob\n        password: pw\n")
+			} else {
+				b.WriteString("      config:\n        cache_ttl: 0s\n")
+			}
 		}
 	}
 	step := func(h handlerSpec) {
@@ -373,7 +381,7 @@ func (p pipeline) yamlGuarded(id, path string, proxy bool, guard int) string {
 func (p pipeline) String() string {
 	var parts []string
 	for _, a := range p.authn {
-		parts = append(parts, a.id+[]string{"", "(fb:=true)", "(fb:=false)"}[a.override])
+		parts = append(parts, a.id+[]string{"", "(fb:=true)", "(fb:=false)", "(cfg)"}[a.override])
 	}
 	cs := []string{"", "?T", "?F", "?E"}
 	for _, h := range append(append([]handlerSpec{}, p.handlers...), p.fins...) {
@@ -400,11 +408,13 @@ func genPipeline(s *simcore.Source, c04Profile bool) pipeline {
 		a := simcore.Pick(s, authnPool, "authn")
 		// rule-level override of the fallback setting (the types that document it as overridable)
 		if a.party != "" || a.kind == "basic" {
-			switch s.Draw(5, "fallback-override") {
+			switch s.Draw(6, "fallback-override") {
 			case 3:
 				a.override, a.fallback = 1, true
 			case 4:
 				a.override, a.fallback = 2, false
+			case 5:
+				a.override = 3
 			}
 		}
 		p.authn = append(p.authn, a)
@@ -456,6 +466,10 @@ type worlds struct {
 	// scheme and host of the next send; the zero values mean plain http to svc.local
 	reqHTTPS bool
 	reqHost  string
+	// the body of the next send has no declared length (decision / proxy)
+	reqChunked bool
+	// Envoy reports no scheme for the next send
+	envoyNoScheme bool
 	// Envoy passes the buffered request body in the string attribute unless pack_as_bytes is set
 	envoyBodyAsString bool
 	// Envoy passes the headers in header_map instead of headers when encode_raw_headers is set
@@ -918,6 +932,10 @@ func (w *worlds) send(entry, path string, hdr map[string]string) (ans answer, pa
 			host = w.reqHost
 		}
 		req := httptest.NewRequest(method, "http://"+host+path, body)
+		if w.reqChunked && w.reqBody != nil {
+			// a body sent with chunked transfer encoding (or over HTTP/2 without a length): its length is not known upfront
+			req.ContentLength, req.TransferEncoding = -1, []string{"chunked"}
+		}
 		if w.reqHTTPS {
 			req.TLS = &tls.ConnectionState{}
 		}
@@ -938,7 +956,7 @@ func (w *worlds) send(entry, path string, hdr map[string]string) (ans answer, pa
 		ctx, cancel := context.WithTimeout(context.Background(), 20*time.Second)
 		defer cancel()
 		resp, err := w.envoy.Check(ctx, &envoy_auth.CheckRequest{Attributes: &envoy_auth.AttributeContext{Request: &envoy_auth.AttributeContext_Request{
-			Http: &envoy_auth.AttributeContext_HttpRequest{Method: map[bool]string{true: "GET", false: w.reqMethod}[w.reqMethod == ""], Scheme: map[bool]string{false: "http", true: "https"}[w.reqHTTPS], Host: map[bool]string{true: "svc.local", false: w.reqHost}[w.reqHost == ""], Path: path, Headers: map[bool]map[string]string{false: lower(hdr)}[w.envoyRawHeaders], HeaderMap: rawHeaders(hdr, w.envoyRawHeaders), RawBody: map[bool][]byte{false: w.reqBody}[w.envoyBodyAsString], Body: map[bool]string{true: string(w.reqBody)}[w.envoyBodyAsString]},
+			Http: &envoy_auth.AttributeContext_HttpRequest{Method: map[bool]string{true: "GET", false: w.reqMethod}[w.reqMethod == ""], Scheme: map[bool]string{false: map[bool]string{false: "http", true: "https"}[w.reqHTTPS]}[w.envoyNoScheme], Host: map[bool]string{true: "svc.local", false: w.reqHost}[w.reqHost == ""], Path: path, Headers: map[bool]map[string]string{false: lower(hdr)}[w.envoyRawHeaders], HeaderMap: rawHeaders(hdr, w.envoyRawHeaders), RawBody: map[bool][]byte{false: w.reqBody}[w.envoyBodyAsString], Body: map[bool]string{true: string(w.reqBody)}[w.envoyBodyAsString]},
 		}}})
 		if err != nil {
 			ans.status = "grpc-error: " + err.Error()
@@ -1019,6 +1037,12 @@ func pipeSim(r *simcore.Run) {
 	defer w.use(0)
 	entry := simcore.Pick(s, []string{"decision", "proxy", "envoy"}, "entry")
 	p := genPipeline(s, prop == "C04")
+	// without a default rule to inherit from, a rule needs an authenticator of its own: one without is refused when
+	// it is loaded - and if it were loaded, nothing could produce a subject
+	noAuthn := variant == 2 && prop != "C04" && s.Draw(5, "rule-without-authenticator") == 4
+	if noAuthn {
+		p.authn = nil
+	}
 	hasHeaderFin := false
 	for _, f := range p.fins {
 		if f.id == "header" && f.cond <= 1 {
@@ -1042,6 +1066,11 @@ func pipeSim(r *simcore.Run) {
 		return
 	}
 	if err := target.Processor.OnCreated(rs); err != nil {
+		if noAuthn {
+			r.Count("rules-without-authenticator-refused", 1)
+			r.Logf("entry=%s variant=%d: the rule without authenticator was refused", entry, variant)
+			return
+		}
 		r.Fail("infra", "ruleset-load", "%v\n%s", err, ruleSet)
 		return
 	}
@@ -1128,10 +1157,14 @@ func pipeSim(r *simcore.Run) {
 		if b := c.body(); b != "" {
 			// the rule matches every method; Envoy hands the body over as string (its default) or as bytes (pack_as_bytes)
 			w.reqMethod, w.reqBody, w.envoyBodyAsString = "POST", []byte(b), s.Draw(2, "envoy-body-as-string") == 1
+			w.reqChunked = s.Draw(3, "body-without-length") == 2
 		}
+		// a check request without scheme does not satisfy a rule which demands one
+		noScheme := entry == "envoy" && (guard == 1 || guard == 2) && s.Draw(4, "envoy-without-scheme") == 3
+		w.envoyNoScheme = noScheme
 		w.reqHTTPS, w.reqHost = https, map[bool]string{true: "other.local"}[otherHost]
 		ans, panicked := w.send(entry, path, c.headers())
-		w.reqHTTPS, w.reqHost = false, ""
+		w.reqHTTPS, w.reqHost, w.reqChunked, w.envoyNoScheme = false, "", false, false
 		w.reqMethod, w.reqBody, w.envoyBodyAsString, w.envoyRawHeaders = "", nil, false, false
 		w.net.Plan = nil
 		called := map[string]int{}
@@ -1155,7 +1188,7 @@ func pipeSim(r *simcore.Run) {
 			r.FailProp("C01", "panic-escaped-entry-point", entry, "a panic escaped the %s entry point: %v", entry, panicked)
 			break
 		}
-		guardMet := guard == 0 || (guard == 1 && https) || (guard == 2 && !https) || (guard == 3 && !otherHost)
+		guardMet := guard == 0 || (guard == 1 && https && !noScheme) || (guard == 2 && !https && !noScheme) || (guard == 3 && !otherHost)
 		matched := strings.HasPrefix(path, "/svc/1") && guardMet
 		if !guardMet {
 			r.Count("requests-missing-the-scheme-or-host-of-the-rule", 1)
